@@ -1,40 +1,43 @@
 #!/bin/bash
 # usage: mut.sh <mutation-dir> <PROP> <seeded-id> [budget_s]
-# 1. verifies the mutation in a scratch worktree (demo passes without, fails with; existing pkg tests pass)
-# 2. applies it to /repo, runs ./check PROP quick, reverts
+# 1. verifies the mutation in a scratch worktree (demo passes without, fails with; existing tests of touched pkgs pass; builds)
+# 2. runs ./check PROP quick against that scratch worktree (VERIF_REPO) with its own output dir, so /repo is never touched
+#    and other work can go on in parallel. (Equivalent to `git -C /repo apply`; /repo stays clean.)
 # 3. stores patch/demo/meta under /verif/seeded/<id>/
 set -u
 D=$1; P=$2; ID=$3; B=${4:-45}
 export GOFLAGS=-mod=mod GOPROXY=off GOSUMDB=off GOTOOLCHAIN=local
-WT=/tmp/wt-verify-$$
+WT=/tmp/wt-verify-$ID
+OD=/tmp/out-verify-$ID
+L=/tmp/mut-$ID
+mkdir -p $L
 git -C /repo worktree add -q $WT HEAD || exit 2
+cleanup() { git -C /repo worktree remove --force $WT; rm -rf $OD; }
 pkgdir=$(head -1 $D/demo_test.go | grep -o 'internal/[A-Za-z0-9_/]*\|apis/[A-Za-z0-9_/]*\|cmd/[A-Za-z0-9_/]*' | head -1)
-echo "demo package dir: $pkgdir"
+echo "[$ID] demo package dir: $pkgdir"
 cp $D/demo_test.go $WT/$pkgdir/zz_verifdemo_test.go
 pkgs=$(cd $WT && git apply --numstat $D/patch.diff | awk '{print $3}' | xargs -n1 dirname | sort -u | sed 's|^|./|')
-( cd $WT && go test -count=1 ./$pkgdir/ -run 'Demo' > /tmp/mut_without.txt 2>&1 ); without=$?
-( cd $WT && git apply $D/patch.diff ) || { echo "PATCH DOES NOT APPLY"; git -C /repo worktree remove --force $WT; exit 2; }
-( cd $WT && go build ./... > /tmp/mut_build.txt 2>&1 ); build=$?
-( cd $WT && go test -count=1 ./$pkgdir/ -run 'Demo' > /tmp/mut_with.txt 2>&1 ); with=$?
-( cd $WT && rm $pkgdir/zz_verifdemo_test.go && go test -count=1 $pkgs > /tmp/mut_existing.txt 2>&1 ); existing=$?
-git -C /repo worktree remove --force $WT
-echo "demo without patch rc=$without (want 0); build rc=$build (want 0); demo with patch rc=$with (want !=0); existing tests rc=$existing (want 0)"
-if [ $without -ne 0 ] || [ $build -ne 0 ] || [ $with -eq 0 ] || [ $existing -ne 0 ]; then echo "MUTATION NOT CONFIRMED"; tail -20 /tmp/mut_existing.txt; exit 3; fi
+( cd $WT && go test -count=1 ./$pkgdir/ -run 'Demo' > $L/without.txt 2>&1 ); without=$?
+( cd $WT && git apply $D/patch.diff ) || { echo "[$ID] PATCH DOES NOT APPLY"; cleanup; exit 2; }
+( cd $WT && go build ./... > $L/build.txt 2>&1 ); build=$?
+( cd $WT && go test -count=1 ./$pkgdir/ -run 'Demo' > $L/with.txt 2>&1 ); with=$?
+( cd $WT && rm $pkgdir/zz_verifdemo_test.go && go test -count=1 $pkgs > $L/existing.txt 2>&1 ); existing=$?
+echo "[$ID] demo without patch rc=$without (want 0); build rc=$build (want 0); demo with patch rc=$with (want !=0); existing tests rc=$existing (want 0)"
+if [ $without -ne 0 ] || [ $build -ne 0 ] || [ $with -eq 0 ] || [ $existing -ne 0 ]; then echo "[$ID] MUTATION NOT CONFIRMED"; tail -20 $L/existing.txt; cleanup; exit 3; fi
 cd /verif
-git -C /repo apply $D/patch.diff || exit 2
-VERIF_BUDGET_S=$B ./check $P quick > /tmp/mut_check.txt 2>&1; rc=$?
-git -C /repo checkout -- .
-tail -8 /tmp/mut_check.txt
-echo "check rc=$rc"
+VERIF_REPO=$WT VERIF_OUTDIR=$OD VERIF_EVIDENCE_DIR=$OD/evidence VERIF_BUDGET_S=$B ./check $P quick > $L/check.txt 2>&1; rc=$?
+tail -8 $L/check.txt | cut -c1-400
+echo "[$ID] check rc=$rc"
 mkdir -p /verif/seeded/$ID
 cp $D/patch.diff /verif/seeded/$ID/patch.diff
 cp $D/demo_test.go /verif/seeded/$ID/demo_test.go
 [ -f $D/README.md ] && cp $D/README.md /verif/seeded/$ID/README.md
-det=$( [ $rc -eq 1 ] && echo true || echo false )
-sig=$(grep -A1 '^VIOLATION' /tmp/mut_check.txt | grep signature | head -3 | sed 's/.*signature: //' | tr '\n' ';')
+sig=$(grep -A1 '^VIOLATION' $L/check.txt | grep signature | head -3 | sed 's/.*signature: //' | tr '\n' ';')
 python3 - <<PY
-import json
+import json,os
 json.dump({"property":"$P","id":"$ID","demo_package":"$pkgdir","verified":{"demo_passes_without":True,"demo_fails_with":True,"existing_tests_pass_with":True,"builds":True},
- "check_cmd":"VERIF_BUDGET_S=$B ./check $P quick","check_exit":$rc,"detected":"$det"=="true","signatures":"$sig","needs":open("$D/README.md").read()[:1500] if __import__("os").path.exists("$D/README.md") else ""},
+ "check_cmd":"VERIF_REPO=<scratch worktree with patch applied> VERIF_BUDGET_S=$B ./check $P quick","check_exit":$rc,"detected":$rc==1,"signatures":"$sig",
+ "needs":open("$D/README.md").read()[:1500] if os.path.exists("$D/README.md") else ""},
  open("/verif/seeded/$ID/meta.json","w"),indent=1)
 PY
+cleanup
